@@ -518,12 +518,14 @@ func (g *hostileGen) next() claim {
 
 // claimTrue reports whether every (hash, target) pair of c is a fact of f:
 // the node at targets[i] exists and has hash hashes[i].  It also returns the
-// index of the first false pair.
+// index of the first false pair.  With mismatched lengths only the pairs that
+// exist are judged (a hash without a position, or a position without a hash,
+// states no fact).
 func claimTrue(f *rm.Forest, c claim) (bool, int) {
-	if len(c.Hashes) != len(c.Targets) {
-		return false, -1
-	}
 	for i, t := range c.Targets {
+		if i >= len(c.Hashes) {
+			break // a target without a hash states nothing
+		}
 		nd := f.Nodes[t]
 		if nd == nil || nd.Hash != c.Hashes[i] {
 			return false, i
